@@ -440,7 +440,7 @@ package tengo
 //@   props C10 C15
 //@   assigns nothing
 //@   ensures from_int: is(o, *Int) ==> ok && v == float64(o.(*Int).Value)
-//@   ensures from_float: is(o, *Float) && !spec.isnan(o.(*Float).Value) ==> ok && v == o.(*Float).Value
+//@   ensures from_float: is(o, *Float) ==> ok && same(v, o.(*Float).Value)
 //@   ensures none: !is(o, *Int) && !is(o, *Float) && !is(o, *String) ==> !ok && v == 0.0
 
 //@ func ToRune
